@@ -11,3 +11,7 @@ mod error;
 #[cfg(test)]
 mod testing;
 
+
+// verification hook (guarded; no effect unless --cfg kryptonitedao_krp_staking_contracts_verif)
+#[cfg(kryptonitedao_krp_staking_contracts_verif)]
+pub use crate::user::verif_calculate_decimal_rewards;
